@@ -259,7 +259,9 @@ def o6(W, ob):
                  'the prune bound is derived from the newest received frame', 'the prune bound does not use last_recv_frame', where(clo))
 
 
-from . import helpers
+from . import helpers, wiring
+
+from . import initial
 
 OBLIGATIONS = [
     ('C05.O1', 'every accepted input packet is acknowledged', 'From the end of the shape checks every path to a normal return '
@@ -277,4 +279,6 @@ OBLIGATIONS = [
      'always answered, recv_inputs is seeded with the NULL_FRAME reference.', o5),
     ('C05.O6', 'prune window covers the ack', 'the recv_inputs prune keeps the newest received frame for every window size.', o6),
     ('C05.H', 'helpers the rules above rely on', 'the bodies of the helpers named by this property\'s rules compute what the rules assume (last_recv_frame, protocol_state_tests); see rules/helpers.py', helpers.bundle('last_recv_frame', 'protocol_state_tests')),
+    ('C05.W', 'configuration wiring', 'at every call site that passes a field read `x.B` for a parameter `A` the callee has no same-typed parameter `B`; in every struct literal no parameter `B` is stored in field `A` while a same-typed parameter `A` / field `B` exists (builder -> constructor -> endpoint fields: timeouts, window, fps are not crossed); see rules/wiring.py', wiring.rule),
+    ('C05.I', 'initial state', 'every constructor gives the fields this property\'s rules interpret (NULL_FRAME = none / nothing yet, 0 = first frame, latches open, typestate start) the value listed in tables/initial_state.json; every field compared with NULL_FRAME anywhere is listed; see rules/initial.py', initial.rule_for('C05')),
 ]
